@@ -243,8 +243,25 @@ where
     fn parse(input: ParseStream) -> syn::Result<Self> {
         let mut attrs = ParseableAttributes::default();
 
+        let mut seen_blocks: Vec<String> = Vec::new();
+
         while !input.is_empty() {
             let ident: Ident = input.parse()?;
+
+            // A repeated `sanitize(..)`, `validate(..)`, `derive(..)` or `default = ..` would silently
+            // replace the previous one, dropping the rules it declared.
+            let block_name = ident.to_string();
+            if matches!(
+                block_name.as_str(),
+                "sanitize" | "validate" | "derive" | "default"
+            ) {
+                if seen_blocks.contains(&block_name) {
+                    let msg = format!("Duplicated attribute `{ident}`.\nPlease merge them into a single `{ident}` attribute.");
+                    return Err(syn::Error::new(ident.span(), msg));
+                }
+                seen_blocks.push(block_name);
+            }
+
             if ident == "sanitize" {
                 if input.peek(Paren) {
                     let content;
